@@ -44,6 +44,10 @@ class Interp:
     def resolve_global(self, name, mod):
         """module-level name: function, class, constant, import"""
         if mod is not None:
+            if (mod.name, name) in self.engine.overrides and name not in mod.consts:
+                # a module-level name (function, class, import) bound by the contract to an opaque stand-in; listed in
+                # the evidence as an assumption of that contract
+                return self.engine.overrides[(mod.name, name)](self)
             if name in mod.funcs:
                 return Func(mod.funcs[name], Env(mod), mod, name=f'{mod.name}.{name}')
             if name in mod.classes:
@@ -655,6 +659,20 @@ class Interp:
             return mk(b.isnone)
         if a is None or b is None:
             return a is None and b is None
+        if isinstance(a, Opt) and isinstance(b, Opt):
+            if a is b:
+                return True
+            # None is None; otherwise identity of the payloads
+            inner = self.is_(a.val, b.val) if isinstance(a.val, (Obj, list, dict, SList, Vec)) and \
+                isinstance(b.val, (Obj, list, dict, SList, Vec)) else None
+            if inner is None:
+                raise Unsupported('is on two optional scalars')
+            return self.ops.lor(self.ops.land(mk(a.isnone), mk(b.isnone)),
+                                self.ops.land(self.ops.land(self.ops.lnot(mk(a.isnone)), self.ops.lnot(mk(b.isnone))), inner))
+        if isinstance(a, Opt) or isinstance(b, Opt):
+            o, x = (a, b) if isinstance(a, Opt) else (b, a)
+            if isinstance(x, (Obj, list, dict, SList, Vec)) and isinstance(o.val, (Obj, list, dict, SList, Vec)):
+                return self.ops.land(self.ops.lnot(mk(o.isnone)), self.is_(o.val, x))
         if isinstance(a, bool) and isinstance(b, bool):
             return a == b
         if isinstance(a, SV) and isinstance(b, bool) and a.t.sort() == z3.BoolSort():
@@ -1017,7 +1035,15 @@ class Interp:
                 x = self.eval(n.args[0], env)
                 if x is False:
                     return True         # the consequent is not evaluated (it may dereference None)
-                return self.models.s_implies(self, [x, self.eval(n.args[1], env)], {})
+                try:
+                    y = self.eval(n.args[1], env)
+                except PyExc as ex:
+                    if ex.cls.name in ('KeyError', 'IndexError', 'AttributeError', 'TypeError') and not isinstance(x, bool):
+                        # the consequent is undefined (missing key / None dereference): the clause then states that its
+                        # antecedent does not hold here - provable only when the antecedent is infeasible on this path
+                        return self.models.s_implies(self, [x, False], {})
+                    raise
+                return self.models.s_implies(self, [x, y], {})
         f = self.eval(n.func, env)
         args = []
         for a in n.args:
